@@ -7,6 +7,9 @@ import Ufw.Tie.ByteBuf.Avail
 import Ufw.Tie.ByteBuf.Rest
 import Ufw.Tie.ByteBuf.Add
 import Ufw.Tie.ByteBuf.Consume
+import Ufw.Tie.ByteBuf.ConsumeAtMost
+import Ufw.Tie.ByteBuf.Rewind
+import Ufw.Tie.ByteBuf.Clear
 import Ufw.Tie.ByteBuf.Reset
 import Ufw.Tie.ByteBuf.Repeat
 #print axioms Ufw.Props.C18.setup_refuses
@@ -27,5 +30,8 @@ import Ufw.Tie.ByteBuf.Repeat
 #print axioms Ufw.Tie.ByteBuf.gen_rest
 #print axioms Ufw.Tie.ByteBuf.gen_add
 #print axioms Ufw.Tie.ByteBuf.gen_consume
+#print axioms Ufw.Tie.ByteBuf.gen_consume_at_most
+#print axioms Ufw.Tie.ByteBuf.gen_rewind
+#print axioms Ufw.Tie.ByteBuf.gen_clear
 #print axioms Ufw.Tie.ByteBuf.gen_reset
 #print axioms Ufw.Tie.ByteBuf.gen_repeat
